@@ -26,7 +26,8 @@ EXPLANATION = (
     'with the request and destroyed by the table\'s cleanup, and every removal disposes, so no timer fires on a '
     'freed request.  These are '
     'necessary conditions of the property; memory safety in general, termination and chunking '
-    'independence are NOT decided.')
+    'independence are NOT decided.'
+    ' Rounds 8-9: (OWN.1) the name handed to a module constructor is the module record\'s own copy; (ARITH.1) comparators cannot overflow; (MPT.6) a va_list is walked once; (BND.5) the program\'s own strlcpy keeps its contract.')
 ASSUMPTIONS = [
     'clang 14 front end / CFG; compile commands synthesised from the Makefile fragments',
     'libc/libevent non-null and write models in sa/rules.py and sa/model.py',
